@@ -309,6 +309,59 @@ def run(ctx, report):
                 R3.samples.append('%s %s: writes %s (defined %s, undefined %s)' % (name, inst.form, sorted(written), sorted(e['F']), sorted(e['U'])))
     report.analysed['effects_ref_mnemonics'] = len(eff)
 
+    # ------------------------------------------------------------------ D4
+    R4 = report.rule('C04.D4', 'shift counts are masked to 5 bits whatever the operand size', floor=30)
+    SHIFTS = {'shl', 'sal', 'shr', 'sar', 'shld', 'shrd'}
+    for inst in L.instances:
+        if inst.name not in SHIFTS or inst.func is None or inst.unknown or not inst.args or len(inst.args) < 2:
+            continue
+        for dec, tmpl in inst.results:
+            if isinstance(tmpl, LiftError) or not isinstance(tmpl, list):
+                continue
+            cnt = inst.args[-1]
+            if cnt.kind == 'Slice':
+                cnt_alts = [cnt, cnt.arg]        # cl is passed as ecx by the _cl helpers
+            else:
+                cnt_alts = [cnt]
+            bad = None
+            n_shift = 0
+            for aff in tmpl:
+                for x in walk_terms(aff):
+                    if x.kind == 'Op' and x.op in ('<<', '>>', 'a>>') and len(x.args) == 2:
+                        n_shift += 1
+                        c = x.args[1]
+                        # every occurrence of the count operand inside the count expression must sit under & 0x1F
+                        def unmasked(t, under_mask):
+                            if any(t == a for a in cnt_alts):
+                                return not under_mask
+                            if t.kind == 'Op':
+                                if t.op == '&' and len(t.args) == 2:
+                                    ks = [a for a in t.args if a.kind == 'Int' and a.mod.val is not None]
+                                    if ks and ks[0].mod.val == 0x1F:
+                                        return any(unmasked(a, True) for a in t.args if a not in ks)
+                                    if ks:
+                                        other = [a for a in t.args if a not in ks]
+                                        if any(any(o == a for a in cnt_alts) or (o.kind == 'Slice' and any(o.arg == a for a in cnt_alts)) for o in other):
+                                            return True    # masked with a constant other than 0x1F
+                                return any(unmasked(a, under_mask) for a in t.args if isinstance(a, Term))
+                            if t.kind == 'Slice':
+                                return unmasked(t.arg, under_mask)
+                            if t.kind == 'Cond':
+                                return any(unmasked(a, under_mask) for a in (t.cond, t.src1, t.src2))
+                            return False
+                        if cnt.kind != 'Int' or cnt.mod.val is None:
+                            if unmasked(c, False):
+                                bad = 'count expression %s of %s does not mask the count operand with 0x1F' % (show(c)[:70], x.op)
+            iid = inst.key()
+            R4.instances += 1
+            R4.nontrivial.add('%s:%s' % (inst.func.name, inst.form))
+            if bad:
+                R4.violation(iid, 'shiftmask:%s' % inst.func.name, '%s (%s): %s (IA-32 masks every shift count to 5 bits, also for 8/16-bit operands)'
+                             % (inst.name, inst.func.name, bad), where(sem, inst.func.node), count=False,
+                             witness='shrd eax, ebx, 33 shifts by 33 instead of 1' if inst.func.name == 'shrd' else None)
+            elif len(R4.samples) < 3 and n_shift:
+                R4.samples.append('%s %s: %d shift nodes, count under & 0x1F' % (inst.name, inst.form, n_shift))
+
 
 MUTANTS = [
     ('setl-nf', 'miasmx/arch/ia32_sem.py', "def setl(info, a):\n    e = []\n    e.append(ExprAff(a, ExprCond(nf-of, ExprInt_from(a, 1), ExprInt_from(a, 0))))",
@@ -328,5 +381,8 @@ MUTANTS = [
      "    e.append(ExprAff(of, ExprInt32(0)))\n    return e\n\ndef update_flag_arith", 'C04.D3'),
     ('add-znp-operand', 'miasmx/arch/ia32_sem.py', "def add(info, a, b):\n    e= []\n    c = ExprOp('+', a, b)\n    e+=update_flag_arith(c)", "def add(info, a, b):\n    e= []\n    c = ExprOp('+', a, b)\n    e+=update_flag_arith(a)", 'C04.D3'),
     ('add-of-formula', 'miasmx/arch/ia32_sem.py', "    return ExprAff(of, get_op_msb(((a ^ c) & (~(a ^ b)))))", "    return ExprAff(of, get_op_msb(((a ^ c) & (a ^ b))))", 'C04.D2'),
+    ('shr-mask-size', 'miasmx/arch/ia32_sem.py', "def shr(info, a, b):\n    e= []\n    shifter = ExprOp('&',b, ExprInt_from(b, 0x1f))",
+     "def shr(info, a, b):\n    e= []\n    shifter = ExprOp('&',b, ExprInt_from(b, a.get_size()-1))", 'C04.D4'),
+    ('sar-nomask', 'miasmx/arch/ia32_sem.py', "def sar(info, a, b):\n    e= []\n\n    shifter = ExprOp('&',b, ExprInt_from(b, 0x1f))", "def sar(info, a, b):\n    e= []\n\n    shifter = b", 'C04.D4'),
     ('mov-zf', 'miasmx/arch/ia32_sem.py', "def mov(info, a, b):\n    return [ExprAff(a, b)]", "def mov(info, a, b):\n    return [ExprAff(a, b)] + update_flag_zf(b)", 'C04.D3'),
 ]
